@@ -1,4 +1,5 @@
 from collections.abc import MutableMapping as DictMixin
+import calendar
 import types
 import threading
 import base64
@@ -14,7 +15,7 @@ def parse_date(ims):
     """ Parse rfc1123, rfc850 and asctime timestamps and return UTC epoch. """
     try:
         ts = email.utils.parsedate_tz(ims)
-        return time.mktime(ts[:8] + (0,)) - (ts[9] or 0) - time.timezone
+        return calendar.timegm(ts[:8] + (0,)) - (ts[9] or 0)
     except (TypeError, ValueError, IndexError, OverflowError):
         return None
 
